@@ -12,8 +12,14 @@ package lanes
 //@   ensures r ==> isType(msgs[0], "*github.com/initia-labs/OPinit/x/opchild/types.MsgUpdateOracle") || isType(msgs[0], "*github.com/cosmos/cosmos-sdk/x/authz.MsgExec")                                      // C20: oracle_update_or_single_exec
 //@   ensures len(msgs) == 1 && isType(msgs[0], "*github.com/initia-labs/OPinit/x/opchild/types.MsgUpdateOracle") ==> r                                             // C20: single_oracle_update_matches
 //@   ensures len(msgs) != 1 ==> !r                                                                     // C20: other_lengths_never_match
+//@   ensures r && isType(msgs[0], "*github.com/cosmos/cosmos-sdk/x/authz.MsgExec") ==>
+//@        len(authzMsgs(val(unbox(msgs[0], "*github.com/cosmos/cosmos-sdk/x/authz.MsgExec")))) == 1
+//@        && isType(authzMsgs(val(unbox(msgs[0], "*github.com/cosmos/cosmos-sdk/x/authz.MsgExec")))[0], "*github.com/initia-labs/OPinit/x/opchild/types.MsgUpdateOracle")   // C20: wrapped_execution_carries_exactly_one_oracle_update
 //@   loop 0 invariant 0 <= $i && $i <= len(msgs)
 //@   loop 0 invariant forall j int :: 0 <= j && j < $i ==> isType(msgs[j], "*github.com/initia-labs/OPinit/x/opchild/types.MsgUpdateOracle") || isType(msgs[j], "*github.com/cosmos/cosmos-sdk/x/authz.MsgExec")
+//@   loop 0 invariant forall j int :: 0 <= j && j < $i && isType(msgs[j], "*github.com/cosmos/cosmos-sdk/x/authz.MsgExec") ==>
+//@        len(authzMsgs(val(unbox(msgs[j], "*github.com/cosmos/cosmos-sdk/x/authz.MsgExec")))) == 1
+//@        && isType(authzMsgs(val(unbox(msgs[j], "*github.com/cosmos/cosmos-sdk/x/authz.MsgExec")))[0], "*github.com/initia-labs/OPinit/x/opchild/types.MsgUpdateOracle")
 //@   assigns \nothing
 
 // the match handler returned by FreeLaneMatchHandler.MatchHandler()
